@@ -39,6 +39,20 @@ def evaluate(mod, lines, wd, tag, env=None):
     """Runs implementation, model and oracle on the case lines."""
     e = dict(env or {})
     e.setdefault("TH_SOCK_DIR", wd)
+    if getattr(mod, "MODEL_AFTER_IMPL", False):
+        # history-acceptance flow: the implementation runs first; the model is asked for the set of
+        # outcomes it allows for what was observed of the run (release order, completions)
+        impl = run_sharded(HARNESS_BIN, lines, wd, tag + "-impl", timeout=mod_timeout(mod), env=e,
+                           shards=getattr(mod, "IMPL_SHARDS", NPROC))
+        model = run_sharded(DRIVER_BIN, [mod.model_line(c, o) for c, o in zip(lines, impl)], wd, tag + "-model",
+                            timeout=mod_timeout(mod))
+        spec = []
+        for c, o in zip(lines, impl):
+            try:
+                spec.append(mod.oracle(c, o))
+            except Exception as ex:
+                spec.append("FAIL oracle exception: %r" % (ex,))
+        return impl, model, spec
     model = run_sharded(DRIVER_BIN, lines, wd, tag + "-model", timeout=mod_timeout(mod))
     # the model may tell the harness how many response bytes to wait for (never what they are)
     if hasattr(mod, "hint"):
@@ -123,6 +137,7 @@ def run_property(mod, tier, seed, replay=None):
 
     # 4. compare
     disagreements = []
+    known_disagreements = []
     failures = []
     skipped = 0
     hist = {}
@@ -139,8 +154,18 @@ def run_property(mod, tier, seed, replay=None):
             elif getattr(mod, "ORACLE_ON_SKIP", False) and sp.startswith("FAIL"):
                 failures.append((i, sp))
             continue
-        if mod.project(im) != mod.project(mo):
-            disagreements.append(i)
+        if hasattr(mod, "agree"):
+            differs = not mod.agree(im, mo)
+        else:
+            differs = mod.project(im) != mod.project(mo)
+        if differs:
+            kf = classify_known(prop, c, known)
+            if kf:
+                # a listed finding: the model of the repaired/intended behaviour and the code differ here by
+                # definition; reported as KNOWN-FINDING, never as a broken correspondence
+                known_disagreements.append((i, kf))
+            else:
+                disagreements.append(i)
         if sp.startswith("FAIL"):
             failures.append((i, sp))
         elif not (sp == "OK" or sp == "SKIP"):
@@ -158,6 +183,10 @@ def run_property(mod, tier, seed, replay=None):
                 % (prop, tier, seed, why, lines[i], impl[i][:100000], model[i][:100000], spec[i]))
 
     reported = set()
+    for i, kf in known_disagreements:
+        if kf["id"] not in reported:
+            reported.add(kf["id"])
+            known_hits.append("KNOWN-FINDING: property=%s %s (%s)" % (prop, kf["what"], kf["id"]))
     for i, why in failures[:50]:
         k = classify_known(prop, lines[i], known)
         if k:
